@@ -63,6 +63,11 @@ def gen_case(rng, default_p=0.7, kf_p=0.05):
         specs = None
     else:
         specs = fc.rand_config_list(rng, anti_list_p=0.4, ga_p=0.6)
+        if rng.random() < 0.5:
+            # generic names: different configurations of the stream (run one after the other in one interpreter) then
+            # carry the same tuple of names -- an answer must not depend on what was asked before
+            for i, sp in enumerate(specs):
+                sp["name"] = "g%d" % i
     req_h = rng.random() < 0.6
     return {"graph": g, "specs": specs, "req_h": req_h, "scheme": scheme, "hmode": hmode, "kind": kind}
 
